@@ -71,13 +71,15 @@ prop('C16',
      'exh: every 32-bit argument of bitcnt/clz/ctz (and every non-zero one of ilog2) against compiler builtins, '
      'arguments distinct by construction (non-trivial = not among the 64 single-bit/zero-ish arguments, counted); '
      'macros: all one- and two-bit patterns, all contiguous masks, random values, evaluated at run time on a '
-     'volatile object and at compile time as static initialisers (distinct = distinct 64-bit arguments, hashed).',
+     'volatile object and at compile time as static initialisers (distinct = distinct 64-bit arguments, hashed), '
+     'with arguments of twelve integer types (8 to 64 bits, signed and unsigned, zero of each) and 32 typed constants.',
      [Stage('exh', ['harness/bitops.c'], [R + 'bitops.c'], preset='O2', nproc=16, pregen=gen.constexpr_table,
             args={'quick': ['--extra', 'exh'], 'thorough': ['--extra', 'exh']},
             needs_min={'arguments_checked_per_function': 1 << 32}),
       Stage('asan', ['harness/bitops.c'], [R + 'bitops.c'], preset='asan', nproc=4, pregen=gen.constexpr_table,
             args={'quick': ['--extra', 'asan'], 'thorough': ['--extra', 'asan']},
-            needs_min={'macro_compile_time_constants': 4000, 'macro_rt_contiguous_masks': 2080}),
+            needs_min={'macro_compile_time_constants': 4000, 'macro_rt_contiguous_masks': 2080,
+                       'macro_rt_typed_zero_arguments': 100, 'macro_compile_time_typed_constants': 32}),
       Stage('asan-clang', ['harness/bitops.c'], [R + 'bitops.c'], preset='asan', cc='clang', nproc=2,
             pregen=gen.constexpr_table, tiers=('thorough',),
             args={'thorough': ['--extra', 'asan']})],
